@@ -31,10 +31,13 @@ def date_parts(a, o):
     return da, db, L, r, (yrs, mos, wks, dys), sgn
 
 
-def date_claims():
+def date_claims(back_for=None):
     def back(a, o):
         da, db, L, r, u, sgn = date_parts(a, o)
-        return And(o.is_some, o.some.is_some, r[2].is_some, eq3(r[2].some.ints(), db))
+        c = And(r[2].is_some, eq3(r[2].some.ints(), db))
+        if back_for is not None:
+            c = Implies(Or([L == x for x in back_for]), c)
+        return And(o.is_some, o.some.is_some, c)
 
     def signs(a, o):
         da, db, L, r, u, sgn = date_parts(a, o)
@@ -52,7 +55,17 @@ def date_claims():
     def dur(a, o):
         da, db, L, r, u, sgn = date_parts(a, o)
         return r[4][0].i * NS + r[4][1].i == (ref_epoch_day(*db) - ref_epoch_day(*da)) * 86400 * NS
+    def years(a, o):
+        (y1, m1, d1), (y2, m2, d2), L, r, (yrs, mos, wks, dys), sgn = date_parts(a, o)
+        dim = ref_dim(y2, m1)
+        dc = If(d1 > dim, dim, d1)                      # a's day clamped into the target year's month
+        before = Or(m2 < m1, And(m2 == m1, d2 < dc))    # (m2, d2) < (m1, dc)
+        after = Or(m2 > m1, And(m2 == m1, d2 > dc))
+        k = If(sgn > 0, (y2 - y1) - If(before, 1, 0), If(sgn < 0, (y2 - y1) + If(after, 1, 0), 0))
+        return Implies(L == 9, yrs == k)
+
     return [("Date::until: a + a.until(b) == b (reversible)", back),
+            ("Date::until(largest = year): the year count is the number of whole (day-clamped) years between the dates", years),
             ("Date::until: all non-zero units share the sign of b - a; no time units", signs),
             ("Date::until: nothing above the largest unit; balanced (months < 12, days < 31, days < 7 with weeks)", shape),
             ("Date::since == -Date::until", neg),
@@ -139,9 +152,9 @@ KERNELS = [
       claims=[("Timestamp::until(largest = minute / hour)", ts_until_claim)],
       bounds={0: (TS_MIN_S, TS_MAX_S), 1: (-999999999, 999999999), 2: (TS_MIN_S, TS_MAX_S), 3: (-999999999, 999999999), 4: (4, 5)}, split=(0, 32), timeout=1200, tier="deep"),
     K("c07::k_date_until", pre=lambda a: And(ref_valid_date(a[0], a[1], a[2]), ref_valid_date(a[3], a[4], a[5]), in_range(a[6], 6, 9),
-                                           in_range(a[0], 2099, 2101), in_range(a[3], 2098, 2102), a[6] != 7),
-      claims=[(lab + " [years 2098..2102; largest in day, month, year — week is thorough-only]", f) for lab, f in date_claims()],
-      bounds={**B_D2, 0: (2099, 2101), 3: (2098, 2102), 6: (6, 9)}, split=(6, 4), timeout=400),
+                                           in_range(a[0], 2100, 2100), in_range(a[3], 2099, 2101), a[6] != 7),
+      claims=[(lab + " [a in 2100, b in 2099..2101; largest in day, month, year; reversibility for month/year: deep tier]", f) for lab, f in date_claims(back_for=[6])],
+      bounds={**B_D2, 0: (2100, 2100), 3: (2099, 2101), 6: (6, 9)}, split=(6, 4), timeout=400),
     K("c07::k_date_until", pre=lambda a: And(ref_valid_date(a[0], a[1], a[2]), ref_valid_date(a[3], a[4], a[5]), in_range(a[6], 6, 9)),
       claims=date_claims(),
       bounds={**B_D2, 6: (6, 9)}, split=(0, 64), timeout=900, tier="deep"),
